@@ -17,7 +17,7 @@
 #include "srvstate.h"
 
 static int thorough;
-enum { K_SHAPES, K_DELIVERIES, K_SRV_SHAPES, K_CLI_SHAPES, K_REACTIONS, K_ACCEPTED, K_NAMECHK, K_SAN = 20 };
+enum { K_SHAPES, K_DELIVERIES, K_SRV_SHAPES, K_CLI_SHAPES, K_REACTIONS, K_ACCEPTED, K_NAMECHK, K_AFTER_REJECTED, K_SAN = 20 };
 static const char *DOM = "t.example.com";
 
 static void viol(const char *what, const char *fmt, ...)
@@ -66,8 +66,11 @@ static h128 OH; static int nout; static char firstout[160];
 
 /* the DNS messages emitted during one delivery, kept for the absolute check in run_shapes() */
 static struct { int len; unsigned char d[700]; } OUTS[6]; static int nouts_kept;
+static h128 TWH; static int ntunw;          /* tun writes of the current delivery only (content, in order) */
+static unsigned char HON[2][4200]; static int honlen;    /* client cells: the honest data answer to the client's outstanding query, as a whole packet [0] and as a first fragment with more to come [1] */
 static void note_out(int kind, const struct sockaddr_storage *dst, const unsigned char *data, int len)
 {
+	if (kind >= 3 && kind != 0) { h128_update(&TWH, &len, sizeof len); h128_update(&TWH, data, len); ntunw++; }
 	h128_update(&OH, &kind, sizeof kind);
 	if (dst) { const char *a = vw_addr_str(dst); h128_update(&OH, a, strlen(a)); }
 	h128_update(&OH, &len, sizeof len); h128_update(&OH, data, len);
@@ -393,10 +396,30 @@ static void check_names_from_own_bytes(const shape *sh, const char *where, const
 	}
 }
 
+/* the client's downstream reassembly state goes into the same hash as its tun writes */
+static void reasm_hash(h128 *h)
+{
+	struct packet *ip = ca_w_inpkt();
+	int v[3] = { ip->seqno, ip->fragment, ip->len };
+	h128_update(h, v, sizeof v);
+	int n = ip->len; if (n < 0) n = 0; if (n > (int)sizeof ip->data) n = sizeof ip->data;
+	h128_update(h, ip->data, n);
+}
+
 static void run_shapes(int is_client, const char *where, void (*deliver)(const shape *))
 {
 	int nres = NRES + (is_client ? 0 : NHIST);
 	vw_snap *snap = vw_snapshot();
+	int have_hon_ref = 0, hon_ref_n[2] = { 0, 0 }; uint64_t hon_ref_h[2][2] = { { 0, 0 }, { 0, 0 } };
+	if (is_client && honlen > 0) for (int v = 0; v < 2; v++) {
+		shape hs; memset(&hs, 0, sizeof hs); memcpy(hs.d, HON[v], honlen); hs.len = honlen;
+		cur_res = 0; res_tail = NULL; res_taillen = 0;
+		h128_init(&OH); nout = 0; h128_init(&TWH); ntunw = 0;
+		deliver(&hs);
+		hon_ref_n[v] = ntunw; reasm_hash(&TWH); h128_final(&TWH, hon_ref_h[v]);
+		if (v == 0) have_hon_ref = hon_ref_n[0] > 0;
+		vw_restore(snap);
+	}
 	for (int i = 0; i < nsh; i++) {
 		shape *sh = &SH[i];
 		outcome ref; memset(&ref, 0, sizeof ref);
@@ -422,6 +445,25 @@ static void run_shapes(int is_client, const char *where, void (*deliver)(const s
 				if (r >= NRES) snprintf(sig, sizeof sig, "server-%s", what[0] == 'r' ? "reaction-depends-on-earlier-datagram" : what[0] == 'e' ? "exit-depends-on-earlier-datagram" : "state-depends-on-earlier-datagram");
 				viol(sig, "%s, %s: with %s after the datagram: %d outputs (%s); %s %s: %d outputs (%s)%s", where, sh->desc, RESN[0], ref.nout, ref.first[0] ? ref.first : "none", r < NRES ? "with" : "delivered", r < NRES ? RESN[r] : HISTN[r - NRES], o.nout, o.first[0] ? o.first : "none",
 				     memcmp(o.post, ref.post, sizeof o.post) ? "; post-states differ" : "");
+			}
+			vw_restore(snap);
+		}
+		if (is_client && honlen > 0 && have_hon_ref) for (int v = 0; v < 2; v++) {
+			/* a datagram the client rejects (no tun write, reassembly position and query ids untouched) must not change what the
+			 * honest answer that follows delivers: whatever the rejected one left in the decoder's variables stays there */
+			struct packet *ip = ca_w_inpkt(); int s0 = ip->seqno, f0 = ip->fragment, l0 = ip->len; unsigned c0 = ca_w_chunkid();
+			cur_res = 0; res_tail = sh->tail; res_taillen = sh->taillen;
+			h128_init(&OH); nout = 0; firstout[0] = 0; nouts_kept = 0; h128_init(&TWH); ntunw = 0;
+			deliver(sh);
+			ip = ca_w_inpkt();
+			if (ntunw == 0 && vw_alive(1) && ip->seqno == s0 && ip->fragment == f0 && ip->len == l0 && ca_w_chunkid() == c0) {
+				shape hs; memset(&hs, 0, sizeof hs); memcpy(hs.d, HON[v], honlen); hs.len = honlen;
+				h128_init(&TWH); ntunw = 0;
+				deliver(&hs);
+				uint64_t th[2]; reasm_hash(&TWH); h128_final(&TWH, th);
+				xp_count(K_AFTER_REJECTED, 1);
+				if (ntunw != hon_ref_n[v] || memcmp(th, hon_ref_h[v], sizeof th))
+					viol("client-delivery-depends-on-a-rejected-datagram", "%s: after '%s' (rejected: nothing delivered, reassembly state and query ids unchanged) the honest %s makes the client write %d packets to its tun and leaves %d bytes in reassembly; without the rejected datagram %d packets%s", where, sh->desc, v ? "first fragment" : "answer", ntunw, ca_w_inpkt()->len, hon_ref_n[v], ntunw == hon_ref_n[v] ? " (other contents or reassembly state)" : "");
 			}
 			vw_restore(snap);
 		}
@@ -512,7 +554,15 @@ static void cli_shapes(int cell)
 	char de = cell == 0 ? 'T' : cell == 4 ? 'S' : 'T';
 	n = honest_answer(ans, pl, 2 + zl, de);
 	if (n < 0) vw_fatal("no honest answer");
+	honlen = n; memcpy(HON[0], ans, n);
+	{ unsigned char pl2[300]; memcpy(pl2, pl, 2 + zl); pl2[1] = (1 << 5); int k2 = honest_answer(HON[1], pl2, 2 + zl, de); if (k2 != n) honlen = 0; }
 	shapes_from_seed(ans, n, 0, "data answer", step);
+	if (cell == 3 || cell == 4) {
+		/* an answer of several records (400 bytes of an unrelated, undecodable fragment), cut at every length: the records before the cut are complete */
+		static unsigned char bigp[420]; bigp[0] = 0x80; bigp[1] = (5 << 5) | (3 << 1); for (int k = 2; k < 400; k++) bigp[k] = (unsigned char)(k * 29 + 7);
+		int k = honest_answer(var, bigp, 400, de);
+		if (k > 0) shapes_from_seed(var, k, 0, "several-record answer", step);
+	}
 	/* dataless answer (2-byte header) */
 	{ unsigned char hdr[2] = { 0x80, 0 }; int k = honest_answer(var, hdr, 2, de); if (k > 0) shapes_from_seed(var, k, 0, "dataless answer", step); }
 	/* RDLENGTH of the first record: locate it with the strict parser */
@@ -641,8 +691,8 @@ int main(int argc, char **argv)
 	hc_quiet();
 	xp_run_jobs(4 + 7, job, a.workers);
 	char extra[400];
-	snprintf(extra, sizeof extra, "\"shapes\":%ld,\"deliveries\":%ld,\"server_shapes\":%ld,\"client_shapes\":%ld,\"shapes_with_a_reaction\":%ld,\"emitted_names_checked_against_own_bytes\":%ld,\"histories\":%d,\"residues\":%d,\"sanitizer_notes_for_C05_C06\":%ld",
-		 XS->counters[K_SHAPES], XS->counters[K_DELIVERIES], XS->counters[K_SRV_SHAPES], XS->counters[K_CLI_SHAPES], XS->counters[K_REACTIONS], XS->counters[K_NAMECHK], NHIST, NRES, XS->counters[K_SAN]);
+	snprintf(extra, sizeof extra, "\"shapes\":%ld,\"deliveries\":%ld,\"server_shapes\":%ld,\"client_shapes\":%ld,\"shapes_with_a_reaction\":%ld,\"emitted_names_checked_against_own_bytes\":%ld,\"honest_answers_after_a_rejected_datagram\":%ld,\"histories\":%d,\"residues\":%d,\"sanitizer_notes_for_C05_C06\":%ld",
+		 XS->counters[K_SHAPES], XS->counters[K_DELIVERIES], XS->counters[K_SRV_SHAPES], XS->counters[K_CLI_SHAPES], XS->counters[K_REACTIONS], XS->counters[K_NAMECHK], XS->counters[K_AFTER_REJECTED], NHIST, NRES, XS->counters[K_SAN]);
 	xp_print_stats(extra);
 	return 0;
 }
